@@ -107,46 +107,64 @@ def takeDigits : List UInt8 → Nat → Nat → Nat × Nat × List UInt8
 
 inductive Num
   | u8 (v : UInt8)
-  /-- a well-formed JSON number that is not a `u8` (negative, > 255, fraction or exponent) -/
+  /-- anything else: a JSON number that is not a `u8` (negative, > 255, fraction, exponent), or a
+  malformed number token; in both cases `serde_json` raises an error at a definite position -/
   | other
 
-/-- Scan a JSON number token `-? (0 | [1-9][0-9]*) (\.[0-9]+)? ([eE][+-]?[0-9]+)?`.
-  `none`: malformed (e.g. `-`, `1.`, `1e`). A leading `0` ends the integer part. -/
-def parseNumber (s : List UInt8) : Option (Num × List UInt8) :=
+/-- `Deserializer::parse_integer` + `parse_number` + `parse_decimal` + `parse_exponent` of
+  serde_json 1.0.151 as far as the READER POSITION is concerned: returns the classification and
+  the unread rest of the input at the moment `u8::deserialize` returns. -/
+def parseNumber (s : List UInt8) : Num × List UInt8 :=
   let (negative, s) := match s with
     | 0x2d :: r => (true, r)
     | _ => (false, s)
-  -- integer part
-  let intPart : Option (Nat × List UInt8) := match s with
-    | 0x30 :: r => some (0, r)
-    | c :: _ => if isDigit c then let (v, _, r) := takeDigits s 0 0; some (v, r) else none
-    | [] => none
-  match intPart with
-  | none => none
-  | some (v, s) =>
-    -- fraction
-    let frac : Option (Bool × List UInt8) := match s with
-      | 0x2e :: r => let (_, n, r') := takeDigits r 0 0; if n == 0 then none else some (true, r')
-      | _ => some (false, s)
-    match frac with
-    | none => none
-    | some (hasFrac, s) =>
-      let exp : Option (Bool × List UInt8) := match s with
-        | c :: r =>
-          if c == 0x65 || c == 0x45 then
-            let r := match r with
-              | 0x2b :: r' => r'
-              | 0x2d :: r' => r'
-              | _ => r
-            let (_, n, r') := takeDigits r 0 0
-            if n == 0 then none else some (true, r')
-          else some (false, s)
-        | [] => some (false, s)
-      match exp with
-      | none => none
-      | some (hasExp, s) =>
-        if !negative && !hasFrac && !hasExp && v ≤ 255 then some (.u8 (UInt8.ofNat v), s)
-        else some (.other, s)
+  -- integer part: `next_char` consumes one character unconditionally
+  match s with
+  | [] => (.other, [])
+  | c :: r =>
+    let intPart : Option (Nat × List UInt8) × List UInt8 :=
+      if c == 0x30 then
+        match r with
+        | d :: _ => if isDigit d then (none, r) else (some (0, r), r)   -- leading zero: error AT the digit
+        | [] => (some (0, r), r)
+      else if isDigit c then
+        let (v, _, r') := takeDigits (c :: r) 0 0
+        (some (v, r'), r')
+      else (none, r)                                                    -- the bad character is consumed
+    match intPart with
+    | (none, pos) => (.other, pos)
+    | (some (v, s), _) =>
+      -- fraction: `.` must be followed by a digit, else error at (not after) the next character
+      let frac : Option (Bool × List UInt8) × List UInt8 := match s with
+        | 0x2e :: r =>
+          let (_, n, r') := takeDigits r 0 0
+          if n == 0 then (none, r) else (some (true, r'), r')
+        | _ => (some (false, s), s)
+      match frac with
+      | (none, pos) => (.other, pos)
+      | (some (hasFrac, s), _) =>
+        -- exponent: after `e`, optional sign, one character is consumed and must be a digit
+        let exp : Option (Bool × List UInt8) × List UInt8 := match s with
+          | c :: r =>
+            if c == 0x65 || c == 0x45 then
+              let r := match r with
+                | 0x2b :: r' => r'
+                | 0x2d :: r' => r'
+                | _ => r
+              match r with
+              | [] => (none, [])
+              | d :: r' =>
+                if isDigit d then
+                  let (_, _, r'') := takeDigits r' 0 0
+                  (some (true, r''), r'')
+                else (none, r')
+            else (some (false, s), s)
+          | [] => (some (false, s), s)
+        match exp with
+        | (none, pos) => (.other, pos)
+        | (some (hasExp, s), _) =>
+          if !negative && !hasFrac && !hasExp && v ≤ 255 then (.u8 (UInt8.ofNat v), s)
+          else (.other, s)
 
 /-- Outcome of `SeqAccess::next_element::<u8>()`, with the reader position afterwards. -/
 inductive Elem
@@ -155,24 +173,53 @@ inductive Elem
   | close (rest : List UInt8)
   /-- `,` followed by `]`: `Err(TrailingComma)`; the reader is AT the `]` -/
   | trailingComma (rest : List UInt8)
-  /-- a well-formed number that is not a `u8`: error after consuming the token -/
-  | badNum (rest : List UInt8)
-  /-- an error raised by peeking; nothing consumed beyond `rest` -/
-  | stuck (rest : List UInt8)
-  /-- malformed number token: reader position not modelled -/
-  | malformed
+  /-- an error; `rest` is the unread input at that moment -/
+  | bad (rest : List UInt8)
+  /-- reader position not modelled (`\u` escapes) -/
+  | unmodelled
   | eof
 
+/-- `parse_ident`: each expected character is consumed by `next_char` and compared. -/
+def parseIdent : List UInt8 → List UInt8 → List UInt8
+  | [], s => s
+  | _ :: _, [] => []
+  | e :: es, c :: cs => if c == e then parseIdent es cs else cs
+
+/-- Position after `parse_str` (validating flavour) has run on the body of a string: `none` for
+  `\u` escapes (not modelled). -/
+def skipString : List UInt8 → Option (List UInt8)
+  | [] => some []
+  | c :: cs =>
+    if c == 0x22 then some cs                       -- closing quote (UTF-8 errors come after it)
+    else if c == 0x5c then
+      match cs with
+      | [] => some []
+      | e :: cs' =>
+        if e == 0x75 then none
+        else if e == 0x22 || e == 0x5c || e == 0x2f || e == 0x62 || e == 0x66 || e == 0x6e
+                || e == 0x72 || e == 0x74 then skipString cs'
+        else some cs'                               -- InvalidEscape, raised after consuming `e`
+    else if c < 0x20 then some cs                   -- control character: consumed, then error
+    else skipString cs
+
+/-- `u8::deserialize` at the start of a value (whitespace already skipped). -/
 def parseValue (s : List UInt8) : Elem :=
   match s with
   | [] => .eof
-  | c :: _ =>
+  | c :: r =>
     if c == 0x2d || isDigit c then
       match parseNumber s with
-      | some (.u8 v, r) => .val v r
-      | some (.other, r) => .badNum r
-      | none => .malformed
-    else .stuck s
+      | (.u8 v, r) => .val v r
+      | (.other, r) => .bad r
+    -- `peek_invalid_type`: literals and strings are consumed before the error is built
+    else if c == 0x6e then .bad (parseIdent "ull".toUTF8.toList r)
+    else if c == 0x74 then .bad (parseIdent "rue".toUTF8.toList r)
+    else if c == 0x66 then .bad (parseIdent "alse".toUTF8.toList r)
+    else if c == 0x22 then
+      match skipString r with
+      | some r' => .bad r'
+      | none => .unmodelled
+    else .bad s                                     -- `[`, `{`, anything else: nothing consumed
 
 def nextElem (first : Bool) (s : List UInt8) : Elem :=
   match skipWs s with
@@ -184,7 +231,7 @@ def nextElem (first : Bool) (s : List UInt8) : Elem :=
       | [] => .eof
       | c' :: r' => if c' == 0x5d then .trailingComma (c' :: r') else parseValue (c' :: r')
     else if first then parseValue (c :: r)
-    else .stuck (c :: r)
+    else .bad (c :: r)
 
 /-- Read exactly `n` `u8` elements. -/
 def readElems : Nat → Bool → List UInt8 → Option (List UInt8 × List UInt8)
@@ -209,18 +256,29 @@ def countRemaining : Nat → Nat → List UInt8 → Option (Nat × List UInt8)
     | .val _ r => countRemaining fuel (cnt + 1) r
     | .close r => some (cnt, r)
     | .trailingComma r => some (cnt, r)
-    | .badNum r => some (cnt, r)
-    | .stuck r => some (cnt, r)
+    | .bad r => some (cnt, r)
     | .eof => some (cnt, [])
-    | .malformed => none
+    | .unmodelled => none
 
-/-- Raw bytes of a JSON string body up to the closing quote; `none` on EOF, `some none` when a
-  backslash escape occurs (not modelled). -/
+/-- `parse_str_raw` on the body of a JSON string: the unescaped bytes and the rest after the
+  closing quote.  No UTF-8 or control-character validation in this flavour.  `none`: error (EOF,
+  invalid escape); `some none`: a `\u` escape (not modelled). -/
 def readRawString : List UInt8 → List UInt8 → Option (Option (List UInt8 × List UInt8))
   | [], _ => none
   | c :: cs, acc =>
     if c == 0x22 then some (some (acc.reverse, cs))
-    else if c == 0x5c then some none
+    else if c == 0x5c then
+      match cs with
+      | [] => none
+      | e :: cs' =>
+        if e == 0x75 then some none
+        else if e == 0x22 || e == 0x5c || e == 0x2f then readRawString cs' (e :: acc)
+        else if e == 0x62 then readRawString cs' (0x08 :: acc)
+        else if e == 0x66 then readRawString cs' (0x0c :: acc)
+        else if e == 0x6e then readRawString cs' (0x0a :: acc)
+        else if e == 0x72 then readRawString cs' (0x0d :: acc)
+        else if e == 0x74 then readRawString cs' (0x09 :: acc)
+        else none
     else readRawString cs (c :: acc)
 
 /-- `serde_json::from_slice::<T>(input)`. -/
